@@ -20,7 +20,9 @@ LEAN_PROPS = 'SupervisorModel.Props.C14'
 DRIVER = 'drv_c14'
 GENERATED = ['Config']
 TRUSTED = [
-    "ConfigParser tokenisation and include-file globbing (the model starts from UnhosedConfigParser.sections()/items() after read_include_config)",
+    "ConfigParser tokenisation and include-file globbing (the configuration model starts from UnhosedConfigParser.sections()/items() after "
+    "read_include_config; the include model readInclude takes every file as tokenised on its own by the parser class and the glob matches of every "
+    "pattern as parameters, models a value as its pieces around the %(here)s marker, and does not model two files defining the same section)",
     "CPython int(), str.strip/lower/upper outside ASCII (+ the few non-ASCII characters that map to ASCII letters), the % operator outside "
     "%%, %(k)s, %(k)d, %(k)Nd, %(k)0Nd, %(k)Ns; shlex is modelled (non-POSIX mode) and exercised, not proved equal to the library",
     "os.path.isdir / pwd database / importlib resolution of result_handler: parameters of the model (existing directories, passwd table, resolvable specs)",
@@ -34,7 +36,13 @@ RULE = ("base cases = configurations generated from the documented option space 
         "its own variable through %(ENV_X)s (X inherited from os.environ or from the [supervisord] environment, optionally per process_num) x use of "
         "the program's value in command / directory / log file names / process_name; every base case is followed by its single-point corruptions "
         "(each typed option malformed, each cross-option constraint, names, expansions, environment, an ENV_ key of an earlier process, events, "
-        "sockets, [supervisord]); every accepted file with a numprocs > 1 section is re-read with that section cut down to single processes; a case "
+        "sockets, [supervisord]); every accepted file with a numprocs > 1 section is re-read with that section cut down to single processes; "
+        "the include dimension (layout_population): sections spread over 1-4 included files named by a literal file, ./ and ../ relative, absolute, "
+        "%(here)s and %(ENV_X)s patterns, a wildcard in the file part, a wildcard / character class / ? in a DIRECTORY part, two directory levels, "
+        "several patterns, matches in several directories, a pattern matching nothing, an included file with an [include] of its own, look-alike "
+        "files no pattern matches, most sections using %(here)s in command / environment / directory / log file names; every included file's "
+        "sections are re-read from one file lying in that file's directory; well-formed files with several program sections and environment= are "
+        "re-read with the sections in the opposite order and with each such section alone; a case "
         "is distinct by the parser's view of the file, non-trivial when it has at least one program-like section")
 
 
@@ -143,8 +151,13 @@ def monitor_valid(ctx, cfg, out, inp):
     facts = cfg['facts']
     groups = out.options.configroot.supervisord.process_group_configs
     here = out.here
-    inc_names = {cfg['sections'][i][0] for i in (cfg.get('include') or [])}
-    inc_here = os.path.join(out.here, 'inc_%s' % cfg.get('_tag', 'v'))
+    # %(here)s of an included file is that file's directory (documented)
+    if cfg.get('layout'):
+        hmap = L.layout_here(cfg, ctx.scratch, cfg.get('_tag', 'v'))
+        here_of = {cfg['sections'][i][0]: h for i, h in hmap.items()}
+    else:
+        inc_here = os.path.join(out.here, 'inc_%s' % cfg.get('_tag', 'v'))
+        here_of = {cfg['sections'][i][0]: inc_here for i in (cfg.get('include') or [])}
     byname = {}
     for g in groups:
         byname.setdefault(g.name, []).append(g)
@@ -177,8 +190,7 @@ def monitor_valid(ctx, cfg, out, inp):
         for f, group_name in members:
             n, s = f['numprocs'], f['start']
             secname = {'program': 'program:', 'eventlistener': 'eventlistener:', 'fcgi': 'fcgi-program:'}[f['kind']] + f['name']
-            # %(here)s of an included file is that file's directory (documented)
-            here = inc_here if secname in inc_names else out.here
+            here = here_of.get(secname, out.here)
             procs = g.process_configs[pos:pos + n]
             pos += n
             exp_names = []
@@ -343,7 +355,7 @@ def _independent_rounds(ctx, cfg, out, inp, plan, orig, rounds):
             chosen[sname] = k
             o2 = [(a, subst_numprocs(b, n)) for a, b in opts if a.lower() not in ('numprocs', 'numprocs_start')]
             secs.append((sname, o2 + [('numprocs', '1'), ('numprocs_start', str(k))]))
-        path = L.write_config({'sections': secs, 'include': cfg.get('include') or []}, ctx.scratch, cfg['_tag'])
+        path = L.write_config({'sections': secs, 'include': cfg.get('include') or [], 'layout': cfg.get('layout')}, ctx.scratch, cfg['_tag'])
         b = L.parse_with(L.make_options(L.ENV_VARS), path, reread=True)
         ctx.count('independence:rereads')
         what = 'sections re-read as single processes with process_num %r' % (chosen,)
@@ -368,6 +380,139 @@ def _independent_rounds(ctx, cfg, out, inp, plan, orig, rounds):
                     return
 
 
+PROGRAM_LIKE = ('program', 'eventlistener', 'fcgi-program')
+
+
+def monitor_env_independent(ctx, cfg, out, inp, valid):
+    """'the child environment is the [supervisord] environment overridden by the program's' -- the program's own, whatever
+    else the file contains: (a) the same sections written in the opposite order give the same configuration in every
+    observable; (b) (well-formed files) a program section that sets environment=, read from a file that holds nothing but
+    [supervisord] and that section, gives its processes the same environments."""
+    secs = cfg['sections']
+    progs = [i for i, (n, _) in enumerate(secs) if n.split(':')[0] in PROGRAM_LIKE]
+    if len(progs) < 2 or cfg.get('layout'):
+        return
+    with_env = [i for i in progs if any(k.lower() == 'environment' for k, _ in secs[i][1])]
+    if not with_env or not valid:
+        return
+    tag = cfg['_tag']
+    try:
+        ops0, lines0 = L.impl_case(out)
+        # (a) opposite order
+        perm = list(range(len(secs)))[::-1]
+        inc = set(cfg.get('include') or [])
+        rev = {'sections': [secs[i] for i in perm], 'include': sorted(k for k, i in enumerate(perm) if i in inc)}
+        b = L.parse_with(L.make_options(L.ENV_VARS), L.write_config(rev, ctx.scratch, tag), reread=True)
+        ctx.count('env-independence:reordered-rereads')
+        if b.status != 'ok':
+            ctx.violation('configuration-depends-on-section-order:rejected', 'accepted, but rejected with the sections in the opposite order: %s' % b.message[:160], inp)
+        elif L.impl_case(b) != (ops0, lines0):
+            detail = 'groups differ'
+            for x, y in zip(out.options.configroot.supervisord.process_group_configs, b.options.configroot.supervisord.process_group_configs):
+                for q, r in zip(x.process_configs, y.process_configs):
+                    if q.environment != r.environment:
+                        detail = 'group %s process %s environment %r, with the sections in the opposite order %r' % (x.name, q.name, q.environment, r.environment); break
+                else:
+                    continue
+                break
+            kind = 'environment-depends-on-section-order' if 'environment' in detail else 'configuration-depends-on-section-order'
+            ctx.violation(kind, detail, inp)
+        # (b) each section on its own
+        grouped = {p.strip() for n, o in secs if n.startswith('group:') for k, v in o if k.lower() == 'programs' for p in v.split(',')}
+        sup = [x for x in secs if x[0] == 'supervisord']
+        groups = {g.name: g for g in out.options.configroot.supervisord.process_group_configs}
+        for i in with_env[:2]:
+            name = secs[i][0].split(':', 1)[1].strip()
+            if name in grouped or name not in groups:
+                continue
+            alone = {'sections': sup + [secs[i]], 'include': []}
+            c = L.parse_with(L.make_options(L.ENV_VARS), L.write_config(alone, ctx.scratch, tag), reread=True)
+            ctx.count('env-independence:alone-rereads')
+            if c.status != 'ok':
+                continue        # (the section may legitimately need another one; per-process independence is monitor_independent's)
+            ga = next((g for g in c.options.configroot.supervisord.process_group_configs if g.name == name), None)
+            if ga is None:
+                continue
+            mine = {q.name: q.environment for q in groups[name].process_configs}
+            for q in ga.process_configs:
+                if q.name in mine and mine[q.name] != q.environment:
+                    ctx.violation('environment-depends-on-other-sections',
+                                  'section %s process %s environment %r; in a file with [supervisord] and this section only %r' % (
+                                      secs[i][0], q.name, mine[q.name], q.environment), inp)
+                    break
+    finally:
+        L.write_config(cfg, ctx.scratch, tag)
+
+
+def included_files(cfg, scratch, tag):
+    """[(absolute path of an included file, [section indices it holds])] for both ways a case can be spread over files"""
+    if cfg.get('layout'):
+        root, main, fpaths = L.layout_paths(cfg['layout'], scratch, tag)
+        return [(fpaths[k], [i for i in f['sections'] if i < len(cfg['sections'])]) for k, f in enumerate(cfg['layout']['files'])]
+    if cfg.get('include'):
+        return [(os.path.join(scratch, 'inc_%s' % tag, 'part.conf'), [i for i in cfg['include'] if i < len(cfg['sections'])])]
+    return []
+
+
+HERE = '%(here)s'
+
+
+def _proc_diff(a, b):
+    for k in ('name', 'command', 'environment', 'directory', 'stdout_logfile', 'stderr_logfile'):
+        if getattr(a, k) != getattr(b, k):
+            return '%s %r, on its own %r' % (k, getattr(a, k), getattr(b, k))
+    return 'another option differs'
+
+
+def monitor_include(ctx, cfg, out, inp):
+    """every option of a section from an included file is what the same section yields in a file of its own that lies in
+    the directory of THAT included file: for each included file F the whole configuration is written as one file without
+    [include] into F's directory -- the sections of F as they are, %(here)s of every other section written out as the
+    directory of the file that holds it -- and must give the same groups and processes in every observable."""
+    files = [(p, idx) for p, idx in included_files(cfg, ctx.scratch, cfg['_tag']) if idx]
+    if not files:
+        return
+    secs = cfg['sections']
+    here_of = {i: out.here for i in range(len(secs))}
+    for p, idx in files:
+        for i in idx:
+            here_of[i] = os.path.dirname(p)
+    uses = [(p, idx) for p, idx in files if any(HERE in v for i in idx for _, v in secs[i][1])]
+    ctx.count('include:files-with-sections', len(files))
+    ctx.count('include:files-using-here', len(uses))
+    ops0, lines0 = L.impl_case(out)
+    for p, idx in uses[:3]:
+        mine = set(idx)
+        flat = [(name, [(k, v if i in mine else v.replace(HERE, here_of[i])) for k, v in opts]) for i, (name, opts) in enumerate(secs)]
+        fp = os.path.join(os.path.dirname(p), 'verif_flat.main')
+        with open(fp, 'w', encoding='utf-8') as fh:
+            fh.write(L.render(flat))
+        try:
+            b = L.parse_with(L.make_options(L.ENV_VARS), fp, reread=True)
+        finally:
+            os.unlink(fp)
+        ctx.count('include:flat-rereads')
+        where = 'sections %r of the included file %s' % ([secs[i][0] for i in idx], os.path.relpath(p, ctx.scratch))
+        if b.status != 'ok':
+            ctx.violation('included-section-differs-from-own-file:rejected-alone',
+                          'the configuration is accepted, but with %s written into one file in that directory it is rejected: %s' % (where, b.message[:160]), inp)
+            continue
+        ops1, lines1 = L.impl_case(b)
+        if (ops0, lines0) != (ops1, lines1):
+            detail = 'groups differ'
+            ga = out.options.configroot.supervisord.process_group_configs
+            gb = b.options.configroot.supervisord.process_group_configs
+            for x, y in zip(ga, gb):
+                for q, r in zip(x.process_configs, y.process_configs):
+                    if L.proc_line(q) != L.proc_line(r):
+                        detail = 'group %s process %s: %s' % (x.name, q.name, _proc_diff(q, r)); break
+                else:
+                    continue
+                break
+            ctx.violation('included-section-differs-from-own-file',
+                          '%s: %%(here)s is not the directory of the file that holds the section -- %s' % (where, detail), inp)
+
+
 def exc_kind(out, sections):
     return 'other-exception:' + out.status.split(' ', 1)[1]
 
@@ -377,7 +522,7 @@ def check_case(ctx, st, cfg, label, must_reject, tag):
     path = L.write_config(cfg, ctx.scratch, tag)
     cfg['_tag'] = tag
     inp = {'label': label, 'must_reject': must_reject, 'sections': cfg['sections'], 'include': cfg.get('include') or [],
-           'facts': cfg.get('facts') if must_reject is False else None, 'env': L.ENV_VARS}
+           'layout': cfg.get('layout'), 'facts': cfg.get('facts') if must_reject is False else None, 'env': L.ENV_VARS}
     a = L.parse_with(L.make_options(L.ENV_VARS), path, reread=True)
     # the first-start path (errors leave through usage()) on every well-formed file and a quarter of the others
     both = must_reject is False or label.startswith('corpus') or st['k'] % 4 == 0
@@ -397,13 +542,21 @@ def check_case(ctx, st, cfg, label, must_reject, tag):
         monitor_accepted(ctx, a, inp, a.parser)
         if must_reject is False:
             monitor_valid(ctx, cfg, a, inp)
+        monitor_include(ctx, cfg, a, inp)
+        monitor_env_independent(ctx, cfg, a, inp, must_reject is False)
         monitor_independent(ctx, cfg, a, inp)
     elif a.status == 'err' and must_reject is False:
         ctx.violation('rejected-wellformed' + (':' + cfg['expect_kind'] if cfg.get('expect_kind') and cfg['expect_kind'] in NARROW_OK(a.message) else ''),
                       'a well-formed file was rejected: %s' % a.message[:200], inp)
     if a.status == 'err':
         ctx.count('error:' + classify(a.message))
-    toks = L.model_tokens(a, L.known_dirs([ctx.scratch, a.here or '/', os.path.join(ctx.scratch, 'inc_%s' % tag)]))
+    if a.parser is not None and a.include_done and (cfg.get('layout') or cfg.get('include')) and (must_reject is False or label.startswith('corpus')):
+        # the include stage against Model/Config.lean readInclude (every file tokenised on its own, glob matches as parameters)
+        st.setdefault('icases', []).append(('case include ' + ' '.join(L.include_tokens(cfg, ctx.scratch, tag, a.here)), ['view']))
+        st.setdefault('iimpls', []).append([L.parser_view(a.parser)])
+        ctx.count('include:stage-compared-with-model')
+    toks = L.model_tokens(a, L.known_dirs([ctx.scratch, a.here or '/', os.path.join(ctx.scratch, 'inc_%s' % tag)] +
+                                          sorted({os.path.dirname(p) for p, _ in included_files(cfg, ctx.scratch, tag)})))
     nontrivial = any(s.split(':')[0] in ('program', 'eventlistener', 'fcgi-program') for s, _ in cfg['sections'])
     if toks is None:
         ctx.count('not-modelled:before-parser-view')
@@ -465,6 +618,15 @@ _C143B = [('command', '/bin/w %(ENV_VERIF_A)s'), ('process_name', 'w_%(ENV_VERIF
           ('environment', 'VERIF_B="%(ENV_VERIF_B)s.%(process_num)d",VERIF_A="pre:%(ENV_VERIF_A)s"'),
           ('stderr_logfile', '/tmp/%(ENV_VERIF_B)s.err')]
 
+_ENV3 = [('supervisord', [('environment', 'C18_GLOBAL="g",C18_SHARED="from_supervisord"')]),
+         ('program:alpha', [('command', '/usr/bin/env'), ('environment', 'C18_ONLY_ALPHA="1",C18_SHARED="from_alpha"')]),
+         ('program:beta', [('command', '/usr/bin/env')]),
+         ('program:gamma', [('command', '/usr/bin/env'), ('environment', 'C18_ONLY_GAMMA="1",C18_SHARED="from_gamma"')])]
+_ENV3_FACTS = {'supenv': dict(_ENV3[0][1])['environment'], 'groups': [], 'listeners': [], 'fcgi': [],
+               'programs': [{'name': n.split(':')[1], 'kind': 'program', 'numprocs': 1, 'start': 0, 'process_name': '%(program_name)s',
+                             'command': '/usr/bin/env', 'priority': None, 'environment': dict(o).get('environment'), 'opts': dict(o)}
+                            for n, o in _ENV3[1:]]}
+
 CORPUS = [
     # (label, must_reject, sections, facts for well-formed files, narrow kind suffix when a well-formed file is rejected)
     # F17 (fixed): forbidden characters reaching a process name through an expansion
@@ -502,6 +664,9 @@ CORPUS = [
             environment=dict(_C143)['environment']), None),
     ('C14-3-extend-os-environ-variable', False, [('supervisord', []), ('program:w', _C143B)],
      _facts(None, _C143B, name='w', numprocs=3, start=0, process_name='w_%(ENV_VERIF_B)s_%(process_num)d', environment=dict(_C143B)['environment']), None),
+    # seeded change C18-6 (one environment dictionary shared by all programs): several programs, different environment=, a
+    # [supervisord] environment that one of them overrides and one does not touch
+    ('C18-6-environments-of-several-programs', False, _ENV3, _ENV3_FACTS, None),
     # plain regression cases
     ('numprocs-40', None, [('supervisord', []), ('program:w', [('command', '/bin/w %(process_num)02d'), ('numprocs', '40'), ('numprocs_start', '-3'),
                                                                ('process_name', '%(program_name)s_%(process_num)03d')])], None, None),
@@ -536,27 +701,89 @@ def run(ctx):
         for label, must, secs in L.corruptions(rng, cfg, per_class=1, everything=(ctx.tier == 'thorough' and i % 10 == 0)):
             c2 = {'sections': secs, 'include': [j for j in cfg['include'] if j < len(secs)] if len(secs) == len(cfg['sections']) else []}
             check_case(ctx, st, c2, label, must, 'x')
+    layout_population(ctx, st, rng)
     ctx.correspond('config', st['cases'], st['impls'])
+    ctx.correspond('include', st.get('icases', []), st.get('iimpls', []))
+
+
+def _app(name):
+    return [('command', '%(here)s/bin/run --instance %(process_num)d'), ('process_name', '%(program_name)s_%(process_num)02d'), ('numprocs', '2'),
+            ('numprocs_start', '3'), ('environment', 'APP_HOME="%(here)s"'), ('stdout_logfile', '%(here)s/' + name + '_%(process_num)d.out')]
+
+
+def _app_fact(name):
+    o = _app(name)
+    return {'name': name, 'kind': 'program', 'numprocs': 2, 'start': 3, 'process_name': '%(program_name)s_%(process_num)02d',
+            'command': dict(o)['command'], 'priority': None, 'environment': dict(o)['environment'], 'opts': dict(o)}
+
+
+LAYOUT_CORPUS = [
+    # seeded change C14-6 (%(here)s of included files computed once per include pattern): a wildcard in a directory part
+    ('C14-6-wildcard-directory', {
+        'sections': [('supervisord', []), ('program:alpha', _app('alpha')), ('program:beta', _app('beta'))], 'include': [],
+        'facts': {'supenv': None, 'programs': [_app_fact('alpha'), _app_fact('beta')], 'groups': [], 'listeners': [], 'fcgi': []},
+        'layout': {'form': 'dir-star', 'main_sub': '', 'patterns': ['{rel}apps/*/supervisor.conf'], 'sep': ' ', 'nested': None, 'decoys': [],
+                   'files': [{'path': 'apps/alpha/supervisor.conf', 'sections': [1]}, {'path': 'apps/beta/supervisor.conf', 'sections': [2]}]}}),
+    ('C14-6-character-class-directory', {
+        'sections': [('supervisord', [('environment', 'ROOT="%(here)s"')]), ('program:alpha', _app('alpha')), ('program:beta', _app('beta'))], 'include': [],
+        'facts': {'supenv': 'ROOT="%(here)s"', 'programs': [_app_fact('alpha'), _app_fact('beta')], 'groups': [], 'listeners': [], 'fcgi': []},
+        'layout': {'form': 'dir-class', 'main_sub': 'main', 'patterns': ['../conf.d/[a-b]*/*.ini'], 'sep': ' ', 'nested': 0,
+                   'decoys': [{'path': 'nested/deep.conf', 'text': '[program:decoy_nested]\ncommand=/bin/decoy\n'}],
+                   'files': [{'path': 'conf.d/a1/x.ini', 'sections': [1]}, {'path': 'conf.d/b2/y.ini', 'sections': [2]}]}}),
+]
+
+
+def layout_population(ctx, st, rng):
+    """the include dimension: every way of naming the included files (literal directory, wildcard in the file part, wildcard /
+    character class / ? in a directory part, two directory levels, several patterns, several matches in different
+    directories, relative / ./ / ../ / absolute / %(here)s / %(ENV_X)s patterns, a pattern matching nothing, an included file
+    with an [include] of its own, look-alike files that no pattern matches), sections using %(here)s"""
+    for k, (label, cfg) in enumerate(LAYOUT_CORPUS):
+        check_case(ctx, st, dict(cfg), 'corpus:' + label, False, 'lc%d' % k)
+    forms = sorted(set(L.LAYOUT_FORMS))
+    extra = ctx.n(6, 90)
+    for i in range(len(forms) * (ctx.boost if ctx.searching else 1) + extra):
+        cfg = L.gen_config(rng, ctx.scratch, small=(i % 2 == 0), perproc=(i % 4 == 3), layout=True)
+        if i < len(forms):
+            cfg['layout'] = L.gen_layout(rng, cfg['sections'], form=forms[i])
+        lay = cfg['layout']
+        ctx.count('include-form:' + lay['form'])
+        ctx.count('include:files', len(lay['files']))
+        if lay['nested'] is not None:
+            ctx.count('include:nested-include-not-followed')
+        if len({os.path.dirname(f['path']) for f in lay['files'] if f['sections']}) > 1:
+            ctx.count('include:matches-in-several-directories')
+        check_case(ctx, st, cfg, 'valid', False, 'v')
+        if i % 3 == 2:
+            for label, must, secs in L.corruptions(rng, cfg, per_class=1):
+                same = len(secs) == len(cfg['sections'])
+                c2 = {'sections': secs, 'include': [], 'layout': lay if same else None}
+                check_case(ctx, st, c2, label, must, 'x')
 
 
 def replay(ctx, data):
     inp = data['input']
     st = {'cases': [], 'impls': [], 'labels': [], 'k': 0}
     cfg = {'sections': [(s, [tuple(o) for o in opts]) for s, opts in inp['sections']], 'include': inp.get('include') or [],
-           'facts': inp.get('facts')}
+           'layout': inp.get('layout'), 'facts': inp.get('facts')}
     check_case(ctx, st, cfg, inp['label'], inp['must_reject'], 'r')
     ctx.correspond('config', st['cases'], st['impls'])
+    ctx.correspond('include', st.get('icases', []), st.get('iimpls', []))
 
 
 # ---- MANIFEST metadata -----------------------------------------------------------------------
 TECHNIQUE = ("Lean 4 theorems over a table-driven model of configuration processing (option names, converters, defaults, word tables, "
              "numeric guards and the placement of the statements binding the expansion dictionary of the numprocs loop regenerated from "
              "options.py/datatypes.py/docs on every run); differential correspondence against the real ServerOptions on generated files and all "
-             "their single-point corruptions; monitors restating the property on the real objects, incl. a metamorphic re-read of every "
-             "numprocs > 1 section as single processes")
+             "their single-point corruptions; monitors restating the property on the real objects, incl. metamorphic re-reads: every "
+             "numprocs > 1 section as single processes, the sections of every included file from one file in that file's directory, sections "
+             "in the opposite order, a section alone; the include stage and the environment loop of read_config are modelled over extracted facts "
+             "(which directory expand_here gets per matched file; whether the [supervisord] environment is copied per process)")
 LEVEL_TEXT = ("numprocs law, per-process independence of expansion (process k is what a fresh single-process expansion yields; over the generated "
               "placement of the statements that rebuild the expansion dictionary inside the numprocs loop), group membership, listener subscription, "
-              "environment precedence, ordering and the rejection of every documented constraint are proved for all parsed files (no bound on "
+              "environment precedence, independence of a program's environment from the other sections (environment_independent_of_other_sections, "
+              "read_config_environment), %(here)s of an included file = that file's directory for all patterns and matches "
+              "(include_here_is_directory_of_file), ordering and the rejection of every documented constraint are proved for all parsed files (no bound on "
               "sections, options, numprocs); documented defaults = coded defaults is decided over the generated tables; the model is tied to the "
               "code by the generated tables and by running both on the same files")
 LEVEL_NOTE = "trusts ConfigParser tokenisation, CPython string/int/% semantics outside the stated subset, the file system / passwd / importlib parameters"
